@@ -20,13 +20,14 @@ import (
 	"github.com/nuts-foundation/go-did/vc"
 	"github.com/nuts-foundation/nuts-node/vcr/pe/test"
 	"verif.local/h"
+	"verif.local/h/pegen"
 )
 
-var c12FuzzSep = []byte("\n====\n")
+var C12FuzzSep = []byte("\n====\n")
 
-func c12FuzzBody(x *h.Ctx, data []byte) {
-	defer c12RecoverPanic(x)
-	defJSON, walletJSON, ok := bytes.Cut(data, c12FuzzSep)
+func C12FuzzBody(x *h.Ctx, data []byte) {
+	defer C12RecoverPanic(x)
+	defJSON, walletJSON, ok := bytes.Cut(data, C12FuzzSep)
 	if !ok || len(defJSON) > 1<<14 || len(walletJSON) > 1<<15 {
 		return
 	}
@@ -71,13 +72,13 @@ func c12FuzzBody(x *h.Ctx, data []byte) {
 		}
 	}
 	builder := def.PresentationSubmissionBuilder()
-	builder.AddWallet(did.MustParseDID(c12Holder), creds)
+	builder.AddWallet(did.MustParseDID(pegen.C12Holder), creds)
 	submission, sign, berr := builder.Build("ldp_vp")
 	if berr != nil || merr != nil || len(submission.DescriptorMap) == 0 {
 		return
 	}
 	// fixture: the presentation; credentials that do not survive being presented are not interesting
-	vpRaw, err := c12VPRaw("ld", sign.VerifiableCredentials)
+	vpRaw, err := C12VPRaw("ld", sign.VerifiableCredentials)
 	if err != nil {
 		x.Class("presentation-not-buildable")
 		return
@@ -127,7 +128,7 @@ func c12FuzzBody(x *h.Ctx, data []byte) {
 	if verr != nil {
 		x.Class("validate-own:rejected")
 		if unambiguous {
-			x.Violate("O4-fuzz-validate-rejects-own-submission", "Validate rejects the submission the builder made for the same definition and credentials: %v\ndefinition: %s\nsubmission: %s", verr, defJSON, c12MustJSON(x, submission))
+			x.Violate("O4-fuzz-validate-rejects-own-submission", "Validate rejects the submission the builder made for the same definition and credentials: %v\ndefinition: %s\nsubmission: %s", verr, defJSON, C12MustJSON(x, submission))
 		}
 		return
 	}
@@ -138,13 +139,13 @@ func c12FuzzBody(x *h.Ctx, data []byte) {
 	_, _ = def.ResolveConstraintsFields(got)
 }
 
-func c12SeedJWT(header, payload map[string]any) string {
+func C12SeedJWT(header, payload map[string]any) string {
 	hb, _ := json.Marshal(header)
 	pb, _ := json.Marshal(payload)
 	return base64.RawURLEncoding.EncodeToString(hb) + "." + base64.RawURLEncoding.EncodeToString(pb) + "." + base64.RawURLEncoding.EncodeToString([]byte("signature-bytes-signature-bytes-signature-bytes"))
 }
 
-func c12FuzzSeeds() [][]byte {
+func C12FuzzSeeds() [][]byte {
 	var defs [][]byte
 	for _, name := range []string{"pd_jsonld.json", "pd_jsonld_jwt.json", "pd_jsonld_jwt_pick.json", "pd_jwt.json"} {
 		if b, err := os.ReadFile(h.RepoPath("vcr/pe/test/" + name)); err == nil {
@@ -160,21 +161,21 @@ func c12FuzzSeeds() [][]byte {
 	if b, err := os.ReadFile(h.RepoPath("vcr/assets/test_assets/vc.json")); err == nil {
 		wallet = append(wallet, json.RawMessage(b))
 	}
-	wallet = append(wallet, c12SeedJWT(map[string]any{"alg": "ES384", "typ": "JWT"}, map[string]any{
+	wallet = append(wallet, C12SeedJWT(map[string]any{"alg": "ES384", "typ": "JWT"}, map[string]any{
 		"iss": "did:nuts:issuer", "sub": "did:web:example.com", "jti": "did:nuts:issuer#1",
 		"vc": map[string]any{"type": "NutsOrganizationCredential", "credentialSubject": map[string]any{"id": "did:web:example.com", "organization": map[string]any{"city": "IJbergen", "name": "care"}}},
 	}))
 	var idWallet []any
 	for _, id := range []string{"1", "2", "3", "4"} {
 		idWallet = append(idWallet, map[string]any{"@context": []any{"https://www.w3.org/2018/credentials/v1"}, "id": id, "type": []any{"VerifiableCredential", "Example"},
-			"issuer": "did:example:issuer", "issuanceDate": c12Date, "credentialSubject": map[string]any{"id": c12Holder, "field": "value", "tags": []any{"a", "b"}}})
+			"issuer": "did:example:issuer", "issuanceDate": pegen.C12Date, "credentialSubject": map[string]any{"id": pegen.C12Holder, "field": "value", "tags": []any{"a", "b"}}})
 	}
 	w1, _ := json.Marshal(wallet)
 	w2, _ := json.Marshal(idWallet)
 	var out [][]byte
 	for _, d := range defs {
 		for _, w := range [][]byte{w1, w2} {
-			out = append(out, append(append(append([]byte{}, bytes.TrimSpace(d)...), c12FuzzSep...), w...))
+			out = append(out, append(append(append([]byte{}, bytes.TrimSpace(d)...), C12FuzzSep...), w...))
 		}
 	}
 	// the shapes behind the known weak spots: array-valued claims under type/pattern filters, pick with min only
@@ -196,16 +197,16 @@ func c12FuzzSeeds() [][]byte {
 }
 
 func FuzzVerif_C12_DefWallet(f *testing.F) {
-	for _, s := range c12FuzzSeeds() {
+	for _, s := range C12FuzzSeeds() {
 		f.Add(s)
 	}
 	f.Fuzz(func(t *testing.T, data []byte) {
-		h.Fuzz(t, "C12", "FuzzVerif_C12_DefWallet", data, func(x *h.Ctx) { c12FuzzBody(x, data) }, h.PanicIsViolation())
+		h.Fuzz(t, "C12", "FuzzVerif_C12_DefWallet", data, func(x *h.Ctx) { C12FuzzBody(x, data) }, h.PanicIsViolation())
 	})
 }
 
 func TestVerifReplay_C12_DefWallet(t *testing.T) {
 	h.Replay(t, "C12", "FuzzVerif_C12_DefWallet", func(x *h.Ctx, raw json.RawMessage) {
-		c12FuzzBody(x, h.FuzzInput(raw))
+		C12FuzzBody(x, h.FuzzInput(raw))
 	}, h.PanicIsViolation())
 }
